@@ -26,4 +26,5 @@ CONSTANTS
   BucketOps = TRUE
   PreBuckets <- NoPaths
   PreCache <- NoKeys
+  PruneLast <- MC_PruneLast
 INVARIANTS TypeOK Disjoint Atomicity Isolation PrefixDurability ReopenOK
